@@ -421,7 +421,9 @@ class C14(ArfProp):
                   "Pending and any cancellation the async fn equals the loop in which the reader is polled until ready: same result, buffer, "
                   "reader state), c14_blocking_is_read_frame + c14_async_equals_blocking (that loop IS the translated blocking "
                   "FixedBuf::read_frame run against the std::io::Read obtained by polling the AsyncRead until ready, for readers that leave the "
-                  "buffer alone when they deliver nothing; hence C02, C06, C12 transfer), c14_pending_keeps_bytes (a Pending poll leaves indices "
+                  "buffer alone when they deliver nothing; hence C02, C06, C12 transfer), c14_async_gets_next (composed with C02: under any Pending "
+                  "placement and cancellation the async read_frame returns next(unread ++ unpulled) for a reader that, polled until ready, is a "
+                  "chunk-schedule transport up to a state map; worked instance with a pending transport in Facets/C14Example.v), c14_pending_keeps_bytes (a Pending poll leaves indices "
                   "and unread bytes untouched; the only suspension point is the reader's Pending); c14_copy_once_pending_invisible / "
                   "c14_copy_once_blocking: the same for copy_once_from (Facets/AsyncCo.v). "
                   "Tie: real futures polled by hand with Waker counting; every subset of reader polls answered Pending for short scenarios; the "
